@@ -127,6 +127,46 @@ def every_name_gets_a_slot(ctx, mpq, pid):
             elif re.search(r"::(chunks|par_chunks|par_iter|into_par_iter|par_bridge|iter|into_iter)$", cn):
                 ctx.rules[R_part]["obligations"] += 1
                 ctx.rules[R_part]["discharged"] += 1
+    # ... and a worker's own loop over its share of the names gives each of them a slot: the per-name loop that pushes results has no
+    # `continue` / `break` (a skipped iteration is a name without a slot; every later slot shifts against the request)
+    for f in mpq.fn_list:
+        # (the request lists live in the two parallel modules; patch_chain.rs lists and de-duplicates archive contents — C08's subject)
+        if not f.file.endswith(("single_archive_parallel.rs", "src/parallel.rs")) or "::tests::" in f.path or not f.hir:
+            continue
+        for lp in hirq.find(f.hir["body"], "for"):
+            pushes = [c_ for c_ in hirq.walk(lp["body"]) if c_.get("k") == "mcall" and c_["m"] == "push"]
+            if not pushes or not re.search(r"name|file|chunk|batch", hirq.render(lp["iter"]) + " ".join(hirq.pat_binds(lp["pat"]) or [])):
+                continue
+            def own(n_, root):
+                # control flow of this loop only: not inside a nested loop or closure
+                stack_ = [(root, False)]
+                while stack_:
+                    x_, nested = stack_.pop()
+                    if x_ is n_:
+                        return not nested
+                    for k_, v_ in x_.items():
+                        if isinstance(v_, dict):
+                            stack_.append((v_, nested or (x_.get("k") in ("for", "loop", "while", "closure") and x_ is not root)))
+                        elif isinstance(v_, list):
+                            for y_ in v_:
+                                if isinstance(y_, dict):
+                                    stack_.append((y_, nested or (x_.get("k") in ("for", "loop", "while", "closure") and x_ is not root)))
+                                elif isinstance(y_, list):
+                                    for z_ in y_:
+                                        if isinstance(z_, dict):
+                                            stack_.append((z_, nested or (x_.get("k") in ("for", "loop", "while", "closure") and x_ is not root)))
+                return False
+            skips = [x_ for x_ in hirq.walk(lp["body"]) if x_.get("k") in ("continue", "break") and own(x_, lp["body"])]
+            cond_push = [c_ for c_ in pushes if any(i_.get("k") == "if" and i_.get("else") is None and any(y_ is c_ for y_ in hirq.walk(i_["then"])) for i_ in hirq.walk(lp["body"]))]
+            ctx.saw_fn(f)
+            inst = {"fn": re.sub(r"::\{closure#\d+\}", "", norm(f.path)).split("::")[-1], "loop_line": lp.get("ln"), "pushes": len(pushes)}
+            if skips or cond_push:
+                w_ = skips[0] if skips else cond_push[0]
+                ctx.bad(R_part, "%s|per-name-loop|%s" % (inst["fn"], "skip" if skips else "conditional-push"), "%s:%d" % (f.file, w_.get("ln") or lp.get("ln") or 0),
+                        "the per-name loop %s" % ("leaves an iteration early (`%s`) before its result is pushed" % w_["k"] if skips else "pushes its result only under a condition with no else-branch"),
+                        "a requested name gets no slot: the result is shorter than the request and every later slot is shifted against the request order")
+            else:
+                ctx.ok(R_part, inst)
     # ... in the order requested: nothing re-orders the names (or a per-batch copy of them) on the way, and an empty request is
     # no special case (the sequential loop still opens every archive and returns one entry per archive)
     R_ord = ctx.rule("%s.request-order-kept" % pid, "in the parallel modules: no sort / reverse / dedup / swap / rotate / shuffle of a name list, and no early `return Ok(<empty>)` guarded by an is_empty() test of the request", floor=10)
